@@ -13,27 +13,51 @@ import (
 func init() {
 	register(&propDef{
 		id: "C16", level: "other", run: runC16,
-		explanation: "Decided: (R1) each With* option closure stores exactly one field of decodeOptions; (R2) control non-interference: every instruction that is control-dependent on a branch whose condition derives from d.opts.* or d.debug is in the allow-list {Logger method invoke and the construction of its arguments, pure reads, store to d.debug, creation/update of the unknown-item maps, defer of the two report handlers, jumps/branches}; no return, panic, other store or decoder call depends on them, and no phi merges different values across such a branch; (R3) data non-interference: values loaded from d.opts.*/d.debug flow only into branch conditions, nil-compares and the logger receiver; (R4) counter guards: the unknown-message increment is dominated by the !known edge, the unknown-field increment by the known-message edge and the !found edge, once per record/field with the (message, field) key; (R5) handlers are deferred before parsing starts, copy every map entry and sort by (message, field). NOT decided: 'account for every record completed before the failure' as a count (the increment precedes the field reads; the statement tolerates this), nor the behaviour of a user-supplied Logger that panics.",
+		explanation: "Decided: (R1) each With* option closure stores exactly one field of decodeOptions; (R2) control non-interference: every instruction that is control-dependent on a branch whose condition derives from d.opts.* or d.debug is in the allow-list {Logger method invoke and the construction of its arguments, pure reads, store to d.debug, creation/update of the unknown-item maps, defer of the two report handlers, jumps/branches}; no return, panic, other store or decoder call depends on them, and no phi merges different values across such a branch; (R3) data non-interference: values loaded from d.opts.*/d.debug flow only into branch conditions, nil-compares and the logger receiver; (R4) counter guards: the unknown-message increment is dominated by the !known edge, the unknown-field increment by the known-message edge and the !found edge, once per record/field with the (message, field) key; (R5) handlers are deferred before parsing starts, copy every map entry and sort by (message, field). NOT decided: 'account for every record completed before the failure' as a count (the increment precedes the field reads; the statement tolerates this), nor the behaviour of a user-supplied Logger that panics. (R4, exact) the counter updates are control dependent, on the error-free part of the flow graph, only on known/found/option tests, nil tests and loops; every parsed field definition is kept (every-field-kept).",
 		trusted:     []string{"post-dominator/control-dependence computation in checker/c16.go", "Logger implementations do not reach back into the decoder"},
 	})
 }
 
 // ---- post-dominators / control dependence --------------------------------------------
 
+func (ci *cdInfo) succs(b *ssa.BasicBlock) []*ssa.BasicBlock {
+	if ci.keep == nil {
+		return b.Succs
+	}
+	var out []*ssa.BasicBlock
+	for _, s := range b.Succs {
+		if ci.keep[s] {
+			out = append(out, s)
+		}
+	}
+	return out
+}
+
 type cdInfo struct {
+	keep  map[*ssa.BasicBlock]bool
 	fn    *ssa.Function
 	pdom  map[*ssa.BasicBlock]map[*ssa.BasicBlock]bool // pdom[b] = set of blocks that post-dominate b (incl. b)
 	exits []*ssa.BasicBlock
 }
 
-func computePostDom(fn *ssa.Function) *cdInfo {
-	ci := &cdInfo{fn: fn, pdom: map[*ssa.BasicBlock]map[*ssa.BasicBlock]bool{}}
+func computePostDom(fn *ssa.Function) *cdInfo { return computePostDomKeep(fn, nil) }
+
+// computePostDomKeep: post-dominators of the sub-graph induced by keep (nil = whole function). Used
+// with keep = "an error-free return is still reachable": error exits and panics then do not make
+// everything behind them control dependent on the test that guards them.
+func computePostDomKeep(fn *ssa.Function, keep map[*ssa.BasicBlock]bool) *cdInfo {
+	ci := &cdInfo{fn: fn, pdom: map[*ssa.BasicBlock]map[*ssa.BasicBlock]bool{}, keep: keep}
 	all := map[*ssa.BasicBlock]bool{}
 	for _, b := range fn.Blocks {
-		all[b] = true
+		if keep == nil || keep[b] {
+			all[b] = true
+		}
 	}
 	for _, b := range fn.Blocks {
-		if len(b.Succs) == 0 {
+		if !all[b] {
+			continue
+		}
+		if len(ci.succs(b)) == 0 {
 			ci.exits = append(ci.exits, b)
 			ci.pdom[b] = map[*ssa.BasicBlock]bool{b: true}
 		} else {
@@ -49,11 +73,11 @@ func computePostDom(fn *ssa.Function) *cdInfo {
 		changed = false
 		for i := len(fn.Blocks) - 1; i >= 0; i-- {
 			b := fn.Blocks[i]
-			if len(b.Succs) == 0 {
+			if !all[b] || len(ci.succs(b)) == 0 {
 				continue
 			}
 			var inter map[*ssa.BasicBlock]bool
-			for _, s := range b.Succs {
+			for _, s := range ci.succs(b) {
 				if inter == nil {
 					inter = map[*ssa.BasicBlock]bool{}
 					for k := range ci.pdom[s] {
@@ -80,7 +104,7 @@ func computePostDom(fn *ssa.Function) *cdInfo {
 // controlled: blocks control-dependent on the branch at the end of block a.
 func (ci *cdInfo) controlled(a *ssa.BasicBlock) map[*ssa.BasicBlock]bool {
 	out := map[*ssa.BasicBlock]bool{}
-	for _, s := range a.Succs {
+	for _, s := range ci.succs(a) {
 		for x := range ci.pdom[s] {
 			// x post-dominates s; control dependent unless x strictly post-dominates a
 			if x != a && ci.pdom[a][x] {
@@ -459,6 +483,14 @@ func c16Counters(c *Ctx, r *Report) {
 				if inLoopWithin(b, fn) > 1 {
 					r.fail("C16-R4-counter-guards", key+"/once", pos, "counter update sits in a nested loop: counted more than once per record/field")
 				}
+				// exactness: the update depends on nothing but what the option documents — message (un)known,
+				// field (not) found, the option itself — and on getting there at all (loops, error exits, nil
+				// tests of the definition). Any further test leaves some unknown items uncounted.
+				if extra := c16ExtraControllers(c, fn, b); extra != "" {
+					r.fail("C16-R4-counter-guards", key+"/exact", pos, "the counter update also depends on "+extra+": unknown items for which that test fails are silently left out of the report")
+				} else {
+					r.ok("C16-R4-counter-guards", key+"/exact", pos, "the update is controlled only by known/found/option tests, loops and error exits")
+				}
 				if strings.HasSuffix(mp, ".unknownMessages") {
 					// dominated by false edge of knownMsg where knownMsg = knownMsgNums[dm.globalMsgNum]; key = dm.globalMsgNum
 					okG := domByBoolEdge(fn, b, false, func(v ssa.Value) bool {
@@ -510,6 +542,187 @@ func c16Counters(c *Ctx, r *Report) {
 		}
 	}
 	r.need("unknown-item counter updates", nUpd, 2)
+	// premise of the field count: every field definition of a definition record reaches the per-record
+	// field loop (where unlisted ones are counted): the store of a parsed field definition into
+	// fieldDefs runs on every error-free pass through the loop that reads them
+	if fn := c.ssaFn(c.fn(c.fit, "decoder.parseDefinitionMessage")); fn != nil {
+		n := 0
+		for _, b := range fn.Blocks {
+			for _, ins := range b.Instrs {
+				isStore := false
+				switch x := ins.(type) {
+				case *ssa.Store:
+					if ia, ok := x.Addr.(*ssa.IndexAddr); ok && strings.HasSuffix(strings.TrimPrefix(stripAddrs(pathOf(ia.X)), "*"), ".fieldDefs") {
+						isStore = true
+					}
+					if fa, ok := x.Addr.(*ssa.FieldAddr); ok && isFieldOf(fa, "defmsg", "fieldDefs") {
+						if call, isCall := x.Val.(*ssa.Call); isCall {
+							if bi, isB := call.Common().Value.(*ssa.Builtin); isB && bi.Name() == "append" {
+								isStore = true
+							}
+						}
+					}
+				}
+				if !isStore || inLoopWithin(b, fn) == 0 {
+					continue
+				}
+				n++
+				extra := extraControllers(c, fn, b, false)
+				r.check(extra == "", "C16-R4-counter-guards", fmt.Sprintf("parseDefinitionMessage/every-field-kept#%d", n), c.pos(ins.Pos()), "every field definition read from a definition record is kept", "a field definition is kept only if "+extra+": a field left out of the definition is never seen by the per-record loop, so an unlisted field of that kind is missing from the unknown-field report (and its bytes are not skipped)")
+			}
+		}
+		r.need("stores of parsed field definitions", n, 1)
+	}
+}
+
+// c16ExtraControllers: the conditions block b is (transitively) control dependent on, other than the
+// allowed kinds; "" if none.
+func c16ExtraControllers(c *Ctx, fn *ssa.Function, b *ssa.BasicBlock) string {
+	return extraControllers(c, fn, b, true)
+}
+
+// extraControllers: with flags=false not even the known/found/option tests are allowed (the block must
+// run on every error-free pass through its loop).
+func extraControllers(c *Ctx, fn *ssa.Function, b *ssa.BasicBlock, flags bool) string {
+	return extraControllersBy(c, fn, b, flags, nil)
+}
+
+// extraControllersBy: with leaf != nil that predicate alone says which conditions are allowed.
+func extraControllersBy(c *Ctx, fn *ssa.Function, b *ssa.BasicBlock, flags bool, leaf func(ssa.Value) bool) string {
+	var ci *cdInfo
+	allowedLeaf := func(v ssa.Value) bool {
+		if leaf != nil {
+			return leaf(v)
+		}
+		if !flags {
+			_, isC := v.(*ssa.Const)
+			return isC
+		}
+		if _, _, isNil := nilTest(v); isNil {
+			return true
+		}
+		if _, _, ok := foundCond(v); ok {
+			return true
+		}
+		switch x := v.(type) {
+		case *ssa.Parameter:
+			return x.Name() == "knownMsg" || x.Name() == "compressed"
+		case *ssa.Lookup:
+			return strings.HasSuffix(pathOf(x.X), ".knownMsgNums")
+		case *ssa.Extract:
+			// `ok` of a range iterator, comma-ok of a map lookup of the known table
+			if _, isNext := x.Tuple.(*ssa.Next); isNext {
+				return true
+			}
+		case *ssa.UnOp:
+			if x.Op == token.MUL && optPath(pathOf(x.X)) {
+				return true
+			}
+			if _, ok := knownTableIndex(x); ok {
+				return true
+			}
+		case *ssa.Const:
+			return true
+		}
+		return false
+	}
+	// blocks from which an error-free return can still be reached: a branch whose other side cannot
+	// (error return, panic) only decides whether the function gets any further at all
+	canSucceed := map[*ssa.BasicBlock]bool{}
+	{
+		var q []*ssa.BasicBlock
+		for _, ret := range c.successReturns(fn) {
+			if !canSucceed[ret.Block()] {
+				canSucceed[ret.Block()] = true
+				q = append(q, ret.Block())
+			}
+		}
+		for len(q) > 0 {
+			x := q[0]
+			q = q[1:]
+			for _, p := range x.Preds {
+				if !canSucceed[p] {
+					canSucceed[p] = true
+					q = append(q, p)
+				}
+			}
+		}
+	}
+	if !canSucceed[b] {
+		return ""
+	}
+	ci = computePostDomKeep(fn, canSucceed)
+	for _, a := range fn.Blocks {
+		if len(a.Instrs) == 0 || !canSucceed[a] {
+			continue
+		}
+		ifi, ok := a.Instrs[len(a.Instrs)-1].(*ssa.If)
+		if !ok {
+			continue
+		}
+		ctl := ci.controlled(a)
+		for changed := true; changed; {
+			changed = false
+			for blk := range ctl {
+				if len(blk.Instrs) == 0 {
+					continue
+				}
+				if _, isIf := blk.Instrs[len(blk.Instrs)-1].(*ssa.If); !isIf {
+					continue
+				}
+				for x := range ci.controlled(blk) {
+					if !ctl[x] {
+						ctl[x] = true
+						changed = true
+					}
+				}
+			}
+		}
+		if !ctl[b] {
+			continue
+		}
+		abandons := false
+		for _, sx := range a.Succs {
+			if !canSucceed[sx] {
+				abandons = true
+			}
+		}
+		if abandons {
+			continue
+		}
+		// a loop header's own condition (counter < bound, iterator ok)
+		isHdr := false
+		for _, p := range a.Preds {
+			if a.Dominates(p) {
+				isHdr = true
+			}
+		}
+		if isHdr {
+			continue
+		}
+		okAll := true
+		for _, t := range []bool{true, false} {
+			for _, f := range condFactsOnEdge(ifi.Cond, t, 0) {
+				switch f.v.(type) {
+				case *ssa.Phi:
+					if ph := f.v.(*ssa.Phi); ph.Comment == "&&" || ph.Comment == "||" {
+						continue
+					}
+				case *ssa.UnOp:
+					if f.v.(*ssa.UnOp).Op == token.NOT {
+						continue
+					}
+				}
+				if !allowedLeaf(f.v) {
+					okAll = false
+				}
+			}
+		}
+		if !okAll {
+			return "`" + stripAddrs(pathOf(ifi.Cond)) + "` (" + c.pos(ifi.Pos()) + ")"
+		}
+	}
+	return ""
 }
 
 // inLoopWithin: loop nesting depth of b (number of distinct back-edge headers dominating b that b can reach).
